@@ -194,10 +194,11 @@ PROPS["C12"] = {
     "explanation": "Deductive (unbounded in content and edit history, by induction over the history): for MutableRandomLineAccessFile and "
                    "MutableMemoryMappedRandomLineAccessFile the primitives __setitem__ / __delitem__ / insert / __getitem__ (int) are the list "
                    "operations on the view V (in-memory text or the file's line), with IndexError ranges and unchanged view on failure, dirty "
-                   "after every change and False after construction; the stdlib mixins append / pop / extend / += are verified from the real "
-                   "_collections_abc source through those contracts; iteration equals indexing; _save_from_iter hands exactly "
+                   "after every change and False after construction; the stdlib mixins append / pop / extend / += / index / remove / reverse "
+                   "/ clear are verified from the real _collections_abc source through those contracts (index = first occurrence, remove "
+                   "deletes exactly it, reverse = the reversed view, clear empties the list); iteration equals indexing; _save_from_iter hands exactly "
                    "strip_nl(V[i]) + line_ending per line, in order, to a freshly opened and finally closed output stream; no mutator has the "
-                   "file system in its frame (source untouched). Bounded only: remove / reverse / clear / index / slices, the record "
+                   "file system in its frame (source untouched). Bounded only: slices / count / __contains__, the record "
                    "variants, byte-exactness of the saved file and 'reopening gives the same list'.",
     "level_text": "Proof of the list refinement for the two plain mutable variants over the line-level file model; bounded histories (<= 3/4 ops x 4 "
                   "variants, save + reopen, source bytes) for the rest.",
